@@ -11,6 +11,7 @@ CONSTANTS
   FragLen2 = 3
   FragLenSJ = 3
   FragAll = FALSE
+  FragAlpha = "frag"
   WithPlumb = TRUE
   WithFrag = TRUE
 INVARIANTS TypeOK DesignOK MachineOK Emitted
